@@ -786,6 +786,10 @@ class Ann(T):
         return self.t.str_like()
 
     def deser(self, d, cx):
+        base = strip(self.t)
+        if isinstance(base, Union_):
+            # constraints on a union apply to each alternative (by the JSON type of the datum); every alternative reports its own errors
+            return Union_([Ann(a, self.cons) for a in flat_alts(base)]).deser(d, cx)
         r = self.t.deser(d, cx)
         top_type_err = isinstance(r, Err) and any(loc == () and kind == "type" for loc, kind, _ in r.errs)
         if top_type_err and not isinstance(strip(self.t), (Union_, AnyT)):
@@ -951,6 +955,35 @@ def opt(t):
 
 
 @dataclass
+class TVar(T):
+    """occurrence of a type variable of a generic class, bound (by the single specialisation generated) to `bound`"""
+    name: str
+    bound: T
+
+    def ann(self):
+        return self.name
+
+    def children(self):
+        return [self.bound]
+
+    def collect(self, decls):
+        self.bound.collect(decls)
+        decls.setdefault("$tv:" + self.name, f"{self.name} = TypeVar({self.name!r})\n")
+
+    def sig(self):
+        return f"tv<{self.bound.sig()}>"
+
+    def hashable(self):
+        return self.bound.hashable()
+
+    def deser(self, d, cx):
+        return self.bound.deser(d, cx)
+
+    def valid(self, rng, cx, depth=0):
+        return self.bound.valid(rng, cx, depth)
+
+
+@dataclass
 class Ref(T):
     name: str
 
@@ -1067,8 +1100,17 @@ class ObjectT(T):
     def named(self):
         return self.name
 
+    def tvars(self):
+        out = []
+        for f in self.fields:
+            for n in _walk_no_objects(f.t):
+                if isinstance(n, TVar) and n.name not in [x.name for x in out]:
+                    out.append(n)
+        return out
+
     def ann(self):
-        return self.name
+        tv = self.tvars()
+        return self.name if not tv else f"{self.name}[{', '.join(v.bound.ann() for v in tv)}]"
 
     def children(self):
         return [f.t for f in self.fields] + [m["ret"] for m in self.methods]
@@ -1138,7 +1180,8 @@ class ObjectT(T):
             if self.fields_set:
                 lines.append("@with_fields_set")
             lines.append(f"@dataclass(frozen={self.frozen})" if self.frozen else "@dataclass")
-            lines.append(f"class {self.name}:")
+            tv = self.tvars()
+            lines.append(f"class {self.name}:" if not tv else f"class {self.name}(Generic[{', '.join(v.name for v in tv)}]):")
             initvars = []
             for f in self.fields:
                 a = self.field_ann(f)
@@ -1374,6 +1417,14 @@ class ObjectT(T):
     def atoms(self, out, cx):
         for f in self.fields:
             f.model_type().atoms(out, cx)
+
+
+def _walk_no_objects(t):
+    """nodes of a field type, not descending into nested classes (their type variables are their own)"""
+    yield t
+    if not isinstance(t, ObjectT):
+        for c in t.children():
+            yield from _walk_no_objects(c)
 
 
 def dedupe(errs):
